@@ -4,7 +4,8 @@
 (* class, every stem the (unspecified) stemmer could return for the record word and *)
 (* for the query word.                                                              *)
 EXTENDS WordMatch, Trigram
-CONSTANTS NSym, MinLen, MaxLen, Mode      \* Mode: "edit" (C04) or "prefix" (C03)
+CONSTANTS NSym, MinLen, MaxLen, Mode,     \* Mode: "edit" (C04) or "prefix" (C03)
+          Stems                           \* "all": every stem 1..len; "corners": only 1 and len (quick tier)
 
 ClassOfSym(x) == CASE x = 1 -> "V" [] x = 2 -> "C" [] x = 3 -> "C" [] x = 4 -> "A" [] OTHER -> "N"
 Text1(w, stem, fin) ==
@@ -30,17 +31,18 @@ Next == \/ stage = 0 /\ w' \in Words /\ v' = <<>> /\ stage' = 1
            /\ v' \in (IF Mode = "edit" THEN Edits(w) \ {w} ELSE Prefixes(w))
 Spec == Init /\ [][Next]_vars
 
+StemsOf(n) == IF Stems = "all" THEN 1..n ELSE {1, n}
 Qualifies == Mode = "prefix" \/ Cardinality(SeqRange(w)) >= 3
 
 \* the record word is found whatever the two stems are
 Found == (stage = 2 /\ Qualifies) =>
-           \A rs \in 1..Len(w), qs \in 1..Len(v) :
+           \A rs \in StemsOf(Len(w)), qs \in StemsOf(Len(v)) :
               WordMatch(Text1(w, rs, TRUE), Text1(w, rs, TRUE).words[1], Text1(v, qs, FALSE), Text1(v, qs, FALSE).words[1]) # <<>>
 \* the index offers the record as a candidate
 SharesGram == (stage = 2 /\ Qualifies) => Grams(w) \cap Grams(v) # {}
 \* `match_len - 2 * ceil(typos)` of an unsplit match never underflows (text.rs)
 ScoreSafe == (stage = 2) =>
-           \A rs \in 1..Len(w), qs \in 1..Len(v), fin \in BOOLEAN :
+           \A rs \in StemsOf(Len(w)), qs \in StemsOf(Len(v)), fin \in BOOLEAN :
               LET m == WordMatch(Text1(w, rs, TRUE), Text1(w, rs, TRUE).words[1], Text1(v, qs, fin), Text1(v, qs, fin).words[1]) IN
               m = <<>> \/ (MatchScoreSafe(m[1].r) /\ m[1].r.sub <= Len(w) /\ m[1].q.sub <= Len(v) /\ m[1].r.sub >= 1)
 =============================================================================
